@@ -18,7 +18,9 @@ import (
 
 	"github.com/PowerDNS/lightningstream/config"
 	"github.com/PowerDNS/lightningstream/snapshot"
+	"github.com/PowerDNS/lightningstream/lmdbenv/header"
 	"github.com/PowerDNS/lightningstream/syncer/cleaner"
+	"github.com/PowerDNS/lightningstream/utils/verifhook"
 	"github.com/PowerDNS/lmdb-go/lmdb"
 	"github.com/sirupsen/logrus"
 
@@ -382,6 +384,10 @@ func bfs(r *ev.Run, name string, cfg ccfg, depth int) {
 
 func main() {
 	flag.Parse()
+	if v, ok := ev.ReplayRequested(); ok {
+		fmt.Printf("  this check enumerates inputs; the replay artefact names the failing input directly: %v\n", v.Replay)
+		return
+	}
 	r := ev.Start("C12")
 	defer r.RecoverMain()
 	defer world.Cleanup()
@@ -401,6 +407,96 @@ func main() {
 	r.Extra("cleaner_runs_judged", nRuns.Load())
 	r.Extra("delete_calls_judged", nDeletes.Load())
 	r.Extra("deletes_of_newest_snapshot_judged", nStaleDeletes.Load())
+	// the syncer's side of the stale-instance rule: "merged and republished" is reported by the real SendOnce/LoadOnce
+	{
+		p := &ev.Part{Name: "syncer-commit-notifications", Engine: "E2", Exhaustive: true}
+		verifhook.SetSkip(func(string) bool { return true })
+		seqLen := ev.Pick(r, 5, 6)
+		var seqs [][]byte
+		var gen func(cur []byte)
+		gen = func(cur []byte) {
+			if len(cur) > 0 {
+				seqs = append(seqs, append([]byte{}, cur...))
+			}
+			if len(cur) == seqLen {
+				return
+			}
+			for _, e := range []byte("SLC") {
+				gen(append(cur, e))
+			}
+		}
+		gen(nil)
+		outcomes := map[string]bool{}
+		for _, native := range []bool{true, false} {
+			for _, seq := range seqs {
+				bkt := world.NewBucket()
+				cfgc := &config.Cleanup{Enabled: true, Interval: time.Minute, MustKeepInterval: 0, RemoveOldInstancesInterval: time.Second}
+				me := inst.New("s", bkt, inst.Opt{Native: native, Cleanup: cfgc})
+				other := inst.New("c", bkt, inst.Opt{Native: native})
+				put := func(i *inst.Inst, k string) {
+					i.AppTxn(func(txn *lmdb.Txn) error {
+						if native {
+							inst.NativePut(txn, "d", []byte(k), 5, false, []byte("v"))
+						} else {
+							inst.PlainPut(txn, "d", 0, []byte(k), []byte("v"))
+						}
+						return nil
+					})
+				}
+				put(other, "kc")
+				put(me, "ks")
+				if _, err := other.Send(); err != nil {
+					ev.Fatal("send: %v", err)
+				}
+				cname := bkt.Names()[0]
+				cdata, _ := bkt.Get(cname)
+				now := time.Now().Add(48 * time.Hour) // far beyond keep and stale intervals relative to the snapshot times
+				merged, republished := false, false
+				var last header.TxnID
+				for si, e := range seq {
+					now = now.Add(time.Hour)
+					switch e {
+					case 'S':
+						id, err := me.Send()
+						if err == nil {
+							last = id
+							if merged {
+								republished = true
+							}
+						}
+					case 'L':
+						if _, ok := bkt.Get(cname); ok {
+							id, changed, err := me.Load(cname, cdata, last)
+							if err == nil {
+								merged = true // (merging the same snapshot again needs no further upload)
+								if !changed {
+									last = id
+								}
+							}
+						}
+					case 'C':
+						_ = me.S.VerifCleaner().RunOnce(context.Background(), now)
+						if _, ok := bkt.Get(cname); !ok && !republished {
+							r.Violate(p.Name, "stale-snapshot-deleted-before-merged-and-republished",
+								fmt.Sprintf("native=%v sequence %s: after step %d the only snapshot of silent instance c is deleted (merged=%v, own snapshot uploaded after the merge=%v)", native, seq, si+1, merged, republished),
+								map[string]any{"native": native, "sequence": string(seq)})
+						}
+					}
+					p.Transitions++
+				}
+				_, still := bkt.Get(cname)
+				outcomes[fmt.Sprintf("%v/%v", still, republished)] = true
+				p.Executions++
+				me.Destroy()
+				other.Destroy()
+			}
+		}
+		p.States = int64(len(seqs))
+		p.Distinct = int64(len(outcomes))
+		p.Bound = fmt.Sprintf("native and shadow x all %d sequences of length<=%d over {SendOnce, LoadOnce of the silent instance's snapshot, cleaner run}, every step an hour apart (beyond keep and stale intervals)", len(seqs), seqLen)
+		p.Samples = []any{"S L C C : c's snapshot must survive (merged but not republished)", "L S C C : may be deleted"}
+		r.AddPart(p)
+	}
 	// receive-only syncer: no Store, no Delete, whatever the configuration says
 	{
 		p := &ev.Part{Name: "receive-only-syncer", Engine: "E1", Exhaustive: true, Bound: "native and shadow; cleanup enabled in the config; SendOnce, cleaner RunOnce x2 after the intervals"}
